@@ -76,6 +76,10 @@ def gen_sequence(rng: random.Random, tier):
         elif r < 0.54 and len(live) > 2:
             steps.append(rng.choice([["disc", L], ["close", L, "fin"], ["close", L, "rst"]]))
             live.remove(L)
+        elif r < 0.555:
+            # a second handshake on a live connection, asking for other options: refused, and nothing about the module changes
+            steps.append(["hello", L, {"mod_id": rng.choice([0, 77, rng.choice(ids)]), "logger": rng.randint(0, 1), "v2": rng.random() < 0.6,
+                                       "v1_after": rng.random() < 0.5, "allow_multiple": rng.randint(0, 1)}])
         elif r < 0.58 and nlab < 10:
             N = f"c{nlab}"
             nlab += 1
